@@ -7,6 +7,7 @@ import (
 	"sort"
 	"strings"
 	"sync"
+	"sync/atomic"
 	"testing"
 	"time"
 
@@ -222,9 +223,10 @@ func runFlow(c *Flow) *verdict {
 
 // Resume is the retransmission-order scenario (broker side and client side).
 type Resume struct {
-	QoS  []int  `json:"qos"`           // the unacknowledged messages, in transmission order
-	Rec  []int  `json:"rec,omitempty"` // indices (into QoS, all QoS 2) answered with PUBREC, in that order
-	Side string `json:"side"`          // "broker" | "client"
+	QoS     []int  `json:"qos"`               // the unacknowledged messages, in transmission order
+	Rec     []int  `json:"rec,omitempty"`     // indices (into QoS, all QoS 2) answered with PUBREC, in that order
+	Side    string `json:"side"`              // "broker" | "client"
+	Backlog []int  `json:"backlog,omitempty"` // broker side: messages queued behind the full window while the subscriber still is online
 }
 
 func checkBurst(log *memconn.Log, c *Resume, burst []packet.Generic, ids []packet.ID) *verdict {
@@ -274,7 +276,7 @@ func sortedIDs(l []packet.ID) []packet.ID {
 }
 
 func runResumeBroker(c *Resume) *verdict {
-	b := bk.New(func(m *broker.MemoryBackend, e *broker.Engine) { m.ClientInflightMessages = len(c.QoS) + 1 })
+	b := bk.New(func(m *broker.MemoryBackend, e *broker.Engine) { m.ClientInflightMessages = len(c.QoS) })
 	defer b.Shutdown()
 	pub, _ := b.Dial("pub")
 	if _, err := pub.ConnectID("pub", true); err != nil {
@@ -314,20 +316,68 @@ func runResumeBroker(c *Resume) *verdict {
 			return vf(b.Log, "harness/subscriber", "no PUBREL")
 		}
 	}
+	for i, q := range c.Backlog {
+		if err := pub.Publish("c15/r", []byte(fmt.Sprintf("r%d", len(c.QoS)+i)), packet.QOS(q), false); err != nil {
+			return vf(b.Log, "harness/publish", "%v", err)
+		}
+	}
 	s.Drop()
 	if !b.WaitClosed(sconn) {
 		return vf(b.Log, "liveness/client-not-terminated", "subscriber's broker side did not terminate")
 	}
-	s2, _ := b.Dial("s")
-	s2.AutoAck = false
+	var n2 uint64
+	s2, _ := b.DialPlan("s", 0, false, func(bc *memconn.Conn) {
+		bc.Jitter = func() { // perturb the schedule between the broker's goroutines
+			switch atomic.AddUint64(&n2, 1) % 3 {
+			case 0:
+				runtime.Gosched()
+			case 1:
+				time.Sleep(60 * time.Microsecond)
+			}
+		}
+	})
 	ack, err := s2.ConnectID("s", false)
 	if err != nil || !ack.SessionPresent {
 		return vf(b.Log, "resume/session-lost", "unclean reconnect: %v", err)
 	}
-	if s2.WaitFor(len(c.QoS), func(packet.Generic) bool { return true }, ev.Ceiling()) < 0 {
-		return vf(b.Log, "resume/missing-retransmission", "%d unacknowledged packets, only %d arrived after the resume", len(c.QoS), len(s2.Inbox)-1)
+	// AutoAck is on: the backlog flows as soon as window slots are acknowledged
+	want := len(c.QoS) + len(c.Backlog)
+	count := func() (l []packet.Generic) {
+		for _, g := range s2.Inbox {
+			if g.Type() == packet.PUBLISH || (g.Type() == packet.PUBREL && len(l) < len(c.QoS)) {
+				l = append(l, g)
+			}
+		}
+		return
 	}
-	return checkBurst(b.Log, c, s2.Inbox[1:1+len(c.QoS)], ids)
+	deadline := time.Now().Add(ev.Ceiling())
+	for len(count()) < want {
+		s2.PumpWait(time.Millisecond)
+		if s2.EOF || time.Now().After(deadline) {
+			return vf(b.Log, "resume/missing-retransmission", "%d unacknowledged and %d queued messages, only %d packets arrived after the resume", len(c.QoS), len(c.Backlog), len(count()))
+		}
+	}
+	seq := count()
+	for k, g := range seq[:len(c.QoS)] {
+		if p, ok := g.(*packet.Publish); ok && !p.Dup {
+			return vf(b.Log, "order/new-delivery-before-retransmission", "packet %d after the resume is a fresh delivery (%s) although only %d of the %d unacknowledged packets had been retransmitted", k, p.Message.Payload, k, len(c.QoS))
+		}
+	}
+	if v := checkBurst(b.Log, c, seq[:len(c.QoS)], ids); v != nil {
+		return v
+	}
+	last := map[packet.QOS]int{}
+	for _, g := range seq {
+		if p, ok := g.(*packet.Publish); ok {
+			var n int
+			fmt.Sscanf(string(p.Message.Payload), "r%d", &n)
+			if prev, seen := last[p.Message.QOS]; seen && n <= prev {
+				return vf(b.Log, "order/resume-stream", "after the resume QoS %d message r%d arrived after r%d", p.Message.QOS, n, prev)
+			}
+			last[p.Message.QOS] = n
+		}
+	}
+	return nil
 }
 
 // syncAfterConnect performs a SUBSCRIBE round trip. Once its future completed
@@ -554,6 +604,10 @@ func runCommands(c *Commands) *verdict {
 	svc.MinReconnectDelay = time.Millisecond
 	svc.MaxReconnectDelay = 5 * time.Millisecond
 	svc.ResubscribeAllSubscriptions = false
+	svc.ErrorCallback = func(error) { time.Sleep(300 * time.Microsecond) } // an application that logs errors
+	d.Plan = func(int) (bool, func(*memconn.Conn)) {
+		return false, func(ce *memconn.Conn) { ce.Jitter = func() { time.Sleep(30 * time.Microsecond) } } // a link that is slower than the command queue
+	}
 	svc.DisconnectTimeout = 20 * time.Millisecond // Stop waits this long for futures of commands lost at a drop
 	issue := func(i int) {
 		tag := fmt.Sprintf("cmd-%04d", i)
@@ -647,26 +701,46 @@ func runCommands(c *Commands) *verdict {
 			}
 		}
 	}()
-	for i := before; i < len(c.Kinds); i++ {
+	// without a drop everything else is issued now; with a drop the commands up
+	// to the drop point are issued, and the rest right when the connection has
+	// just failed (the service has not noticed yet or is about to reconnect)
+	upto := len(c.Kinds)
+	if c.DropAfter > 0 && c.DropAfter < upto {
+		upto = c.DropAfter
+	}
+	for i := before; i < upto; i++ {
 		issue(i)
 	}
-	// commands in flight when the connection drops may be lost; a sentinel
-	// issued after the service has reconnected cannot be: wait for it
-	if c.DropAfter > 0 {
+	waitFor := func(what string, cond func() bool) *verdict {
 		deadline := time.Now().Add(ev.Ceiling())
 		for {
 			mu.Lock()
-			dr := dropped && connects >= 2 // the service has noticed the drop and is connected again
+			ok := cond()
 			mu.Unlock()
-			if dr {
-				break
+			if ok {
+				return nil
 			}
 			if time.Now().After(deadline) {
 				mu.Lock()
 				defer mu.Unlock()
-				return vf(log, "service/commands-not-carried-out", "%d commands issued, the fake broker saw only %v", len(c.Kinds), seen)
+				return vf(log, "service/commands-not-carried-out", "%d commands issued, waiting for %s, the fake broker saw only %v", len(c.Kinds), what, seen)
 			}
-			time.Sleep(200 * time.Microsecond)
+			time.Sleep(20 * time.Microsecond)
+		}
+	}
+	if c.DropAfter > 0 {
+		if v := waitFor("the connection drop", func() bool { return dropped }); v != nil {
+			return v
+		}
+		for i := upto; i < len(c.Kinds); i++ {
+			if i >= before {
+				issue(i)
+			}
+		}
+		// commands in flight when the connection drops may be lost; a sentinel
+		// issued after the service has reconnected cannot be: wait for that
+		if v := waitFor("the reconnect", func() bool { return connects >= 2 }); v != nil {
+			return v
 		}
 	}
 	sentinel := len(c.Kinds)
@@ -742,6 +816,11 @@ func genResume(rt *rapid.T, side string) *Resume {
 		}
 	}
 	c.Rec = rapid.Permutation(q2).Draw(rt, "rec_order")
+	if side == "broker" {
+		for n := rapid.IntRange(0, 4).Draw(rt, "backlog"); n > 0; n-- {
+			c.Backlog = append(c.Backlog, rapid.IntRange(1, 2).Draw(rt, "bq"))
+		}
+	}
 	return c
 }
 
